@@ -55,12 +55,12 @@ func NodeValue(key, canonIn string) string {
 
 // Error classes of the model.
 const (
-	ErrNone     = ""
-	ErrMaxSteps = "max-steps"
-	ErrNoTasks  = "no-tasks"
-	ErrMerge    = "merge"
-	ErrNode     = "node-failure"
-	ErrEndSkip  = "end-not-reached"
+	ErrNone       = ""
+	ErrMaxSteps   = "max-steps"
+	ErrNoTasks    = "no-tasks"
+	ErrMerge      = "merge"
+	ErrNode       = "node-failure"
+	ErrEndSkip    = "end-not-reached"
 	ErrMissingKey = "missing-map-key"
 )
 
@@ -74,15 +74,15 @@ func (e Exec) String() string { return e.Path + "<-" + e.Input }
 
 // ModelResult is what the reference model predicts for one run.
 type ModelResult struct {
-	Out   M
-	Err   string
+	Out M
+	Err string
 	// AltErr: other error classes the run may report instead of Err (several failures in
 	// one superstep: which one is reported is not fixed)
 	AltErr []string
 	// ErrPath: for the step-limit error, the path of the (nested) graph that hit its limit
 	ErrPath string
 	Execs   []Exec
-	Steps int
+	Steps   int
 	// StateN is the expected final value of the state counter per stateful graph path
 	// ("" for the top level): the number of handler and ProcessState invocations.
 	StateN map[string]int
